@@ -39,8 +39,17 @@ def _make_reactor():
             self.created = []      # every delayed call, in creation order
             self.nseq = 0
 
+        GRID = float(1 << 20)
+
         def callLater(self, delay, callable, *args, **kw):
-            dc = MemoryReactorClock.callLater(self, delay, callable, *args, **kw)
+            # Virtual time lives on a dyadic grid (2**-20 s): sums and differences of
+            # times are then exact in floating point.  Without this, exact virtual
+            # due times make LoopingCall's modulo arithmetic fire a tick twice within
+            # 1e-14 s, which no real reactor (that always fires a little late) does.
+            due = round((self.rightNow + delay) * self.GRID) / self.GRID
+            if due < self.rightNow:
+                due = self.rightNow
+            dc = MemoryReactorClock.callLater(self, due - self.rightNow, callable, *args, **kw)
             self.nseq += 1
             dc.seq = self.nseq
             self.created.append(dc)
@@ -93,6 +102,7 @@ def _make_reactor():
             return c
 
         def set_time(self, t):
+            t = round(t * self.GRID) / self.GRID
             if t > self.rightNow:
                 self.rightNow = t
 
